@@ -105,7 +105,7 @@ def run_case(c):
     paths = [k[0] for k in c["keys"]]
     if var == "key-replaced":
         p = paths[vi % len(paths)]
-        other = attest.wallet([[p, c["vkey"] + 1]])[p]
+        other = attest.wallet([["replacement-of:" + p, c["vkey"]]])["replacement-of:" + p]
         file_keys[p] = pub_uncompressed(other)
         genuine = False
     elif var == "key-added":
